@@ -49,8 +49,67 @@ var importMap = map[string][2]string{
 // shared fields whose accesses are reported to the happens-before monitor
 var anchoredFields = map[string]bool{"innovations": true, "nextInnovNum": true, "nextNodeId": true}
 
+// collectOptionWrites: field names assigned through a function parameter of type *neat.Options in the
+// genetics package (the options object is shared by all reproduction goroutines and is meant to be
+// read-only there). Such fields join the anchored set, so that every read and write of them is
+// reported to the happens-before monitor. The unchanged library has none.
+func collectOptionWrites() {
+	dir := filepath.Join(*repo, "neat/genetics")
+	ents, _ := os.ReadDir(dir)
+	isOptsParam := func(id *ast.Ident) bool {
+		if id == nil || id.Obj == nil {
+			return false
+		}
+		f, ok := id.Obj.Decl.(*ast.Field)
+		if !ok {
+			return false
+		}
+		st, ok := f.Type.(*ast.StarExpr)
+		if !ok {
+			return false
+		}
+		se, ok := st.X.(*ast.SelectorExpr)
+		if !ok {
+			return false
+		}
+		pk, ok := se.X.(*ast.Ident)
+		return ok && pk.Name == "neat" && se.Sel.Name == "Options"
+	}
+	for _, e := range ents {
+		n := e.Name()
+		if e.IsDir() || !strings.HasSuffix(n, ".go") || strings.HasSuffix(n, "_test.go") {
+			continue
+		}
+		f, err := parser.ParseFile(token.NewFileSet(), filepath.Join(dir, n), nil, 0)
+		if err != nil {
+			continue
+		}
+		note := func(l ast.Expr) {
+			if se, ok := l.(*ast.SelectorExpr); ok {
+				if id, ok := se.X.(*ast.Ident); ok && isOptsParam(id) {
+					anchoredFields[se.Sel.Name] = true
+				}
+			}
+		}
+		ast.Inspect(f, func(nd ast.Node) bool {
+			switch x := nd.(type) {
+			case *ast.AssignStmt:
+				if x.Tok != token.DEFINE {
+					for _, l := range x.Lhs {
+						note(l)
+					}
+				}
+			case *ast.IncDecStmt:
+				note(x.X)
+			}
+			return true
+		})
+	}
+}
+
 func main() {
 	flag.Parse()
+	collectOptionWrites()
 	overlay := map[string]string{}
 	if err := os.RemoveAll(*out); err != nil {
 		fatal(err)
